@@ -3,7 +3,8 @@
    Model of the serialiser: SpecIO.v (cond1_to_json); of the parser: Spec.v (cond1_from_spec);
    of `==`: Eq.v (cond1_eqb).  The conditions are those of typed DSL trees (DocSem.v) whose
    arguments are JSON values (mappings only without "path" in their keys: see `plain2` and the
-   counterexamples at the end of the file) or, where the class / callable asks for types, type
+   counterexamples at the end of the file; likewise the item names of items_contain:
+   `q_items_nopath`) or, where the class / callable asks for types, type
    objects.  Facts about the generated tables T / X are closed by computation. *)
 From Coq Require Import ZArith NArith List Bool String Ascii Lia.
 From Valida Require Import Py Lang Defs Cond Dsl Check DocSem Path Cast Str SpecDefs RuleDefs RuleTerms
@@ -224,7 +225,7 @@ Qed.
 (* 2. the serialiser on the leaves of typed trees                       *)
 
 Notation a2j := (arg1_to_json T X).
-Notation l2j := (leaf_to_json T arg1 (arg1_to_json T X)).
+Notation l2j := (leaf_to_json T arg1 (arg1_to_json T X) arg1_raw).
 
 (* ---- literal values ---- *)
 
@@ -544,6 +545,15 @@ Definition kws_json (cast : bool) := fix go (kws : list (string * arg1)) : res (
   | (k', a) :: r => let* x := a2j cast a in let* r' := go r in Ok ((VStr k', x) :: r')
   end.
 
+Definition kws_raw := fix go (kws : list (string * arg1)) : res (list (pyval * pyval)) :=
+  match kws with
+  | [] => Ok []
+  | (k', a) :: r => let* x := arg1_raw a in let* r' := go r in Ok ((VStr k', x) :: r')
+  end.
+
+Definition kws_have_path (kws : list (string * arg1)) : bool :=
+  existsb (fun ka => str_contains "path" (fst ka)) kws.
+
 Definition args_json (sh : nat * bool * bool) (cast : bool) (l : leaf arg1) : res pyval :=
   let '(npk, va, kw) := sh in
   if (npk =? 0)%nat && negb va && negb kw then Ok VNone
@@ -552,8 +562,14 @@ Definition args_json (sh : nat * bool * bool) (cast : bool) (l : leaf arg1) : re
     | a :: _ => a2j cast a
     | [] => Err IndexError
     end
-  else if ((1 <? npk)%nat && negb va && negb kw) || (kw && negb va) then
+  else if (1 <? npk)%nat && negb va && negb kw then
     let* items := kws_json cast (l_kwargs l) in Ok (VDict items)
+  else if kw && negb va then
+    (* **items: written raw through escape_map if some item name contains "path" *)
+    if kws_have_path (l_kwargs l) then
+      let* items := kws_raw (l_kwargs l) in Ok (escape_map items)
+    else
+      let* items := kws_json cast (l_kwargs l) in Ok (VDict items)
   else if va && (npk =? 0)%nat && negb kw then
     let* items := mapM (a2j cast) (l_args l) in Ok (VList items)
   else Err NotImplementedError.
@@ -684,14 +700,35 @@ Proof.
   rewrite a2j_lit, (val_to_json_ok cast v Hv). cbn [bind]. rewrite (IH Hr). reflexivity.
 Qed.
 
+(* After the repair of the serialiser, the keyword mapping of a var-keyword callable
+   (items_contain( **items )) is written raw and ESCAPED as soon as one item name contains "path";
+   from_spec then un-escapes the names and moves them to the end (cf. example (e) below for mapping
+   arguments), so neither `c2 = c1` nor `cond1_to_json c2 = Ok j` holds in general.  q_items_ok
+   (C09Proof: no name contains "\path", not a single `path[.m[.m]]` name) does NOT exclude such
+   names (e.g. `mypath`, or `path` next to another item), hence this extra condition of the
+   fragment: no item name contains "path". *)
+Definition items_nopath (items : list (string * pyval)) : bool :=
+  negb (existsb (fun kv => str_contains "path" (fst kv)) items).
+Definition q_items_nopath (q : dsl) : bool :=
+  match q with Q_items_contain items => items_nopath items | _ => true end.
+
+Lemma kws_have_path_lit items :
+  kws_have_path (kmapL items) = existsb (fun kv => str_contains "path" (fst kv)) items.
+Proof.
+  unfold kws_have_path, kmap. induction items as [|[k v] r IH]; cbn [map existsb fst]; [reflexivity|].
+  rewrite IH. reflexivity.
+Qed.
+
 Lemma args_json_kw sh cast l items :
-  (sh = (2, false, false) \/ sh = (0, false, true))%nat -> l_kwargs l = kmapL items ->
+  (sh = (2, false, false) \/ (sh = (0, false, true) /\ items_nopath items = true))%nat -> l_kwargs l = kmapL items ->
   forallb (arg_ok cast) (map snd items) = true ->
   args_json sh cast l = Ok (kwd (kw_json cast items)).
 Proof.
   intros Hs Hl Hv. unfold kwd. change (fun kv : string * pyval => (VStr (fst kv), snd kv)) with skv.
-  destruct Hs as [-> | ->]; unfold args_json; cbn [Nat.eqb Nat.ltb Nat.leb negb andb orb];
-    rewrite Hl, (kws_json_lit cast items Hv); reflexivity.
+  destruct Hs as [-> | [-> Hn]]; unfold args_json; cbn [Nat.eqb Nat.ltb Nat.leb negb andb orb]; rewrite Hl.
+  - rewrite (kws_json_lit cast items Hv). reflexivity.
+  - unfold items_nopath in Hn. apply negb_true_iff in Hn.
+    rewrite kws_have_path_lit, Hn, (kws_json_lit cast items Hv). reflexivity.
 Qed.
 
 Lemma args_json_star cast l vs :
@@ -702,14 +739,14 @@ Proof.
   rewrite Hl, (mapM_a2j cast vs Hv). reflexivity.
 Qed.
 
-Lemma args_json_form c q cast : forallb (arg_ok cast) (q_args q) = true ->
+Lemma args_json_form c q cast : q_items_nopath q = true -> forallb (arg_ok cast) (q_args q) = true ->
   args_json (q_shape q) cast (lmapL (expected_leaf c q)) = Ok (form_json cast (q_form q)).
 Proof.
-  rewrite q_args_form. intros H.
+  rewrite q_args_form. intros Hn H.
   destruct q; cbn [q_form form_args form_json q_shape] in *;
     first [ apply args_json_zero
           | eapply args_json_one; [reflexivity|]; cbn [forallb] in H; rewrite andb_true_r in H; exact H
-          | apply args_json_kw; [first [left; reflexivity|right; reflexivity]|reflexivity|exact H]
+          | apply args_json_kw; [first [left; reflexivity|right; split; [reflexivity|exact Hn]]|reflexivity|exact H]
           | apply args_json_star; [reflexivity|exact H] ].
 Qed.
 
@@ -717,10 +754,10 @@ Qed.
 Definition q_json_val (c : scls) (q : dsl) : pyval := form_json (casts c q) (q_form q).
 Definition leaf_json (c : scls) (q : dsl) : pyval := VDict [(VStr (leaf_key c q), q_json_val c q)].
 
-Lemma leaf_to_json_ok c q : forallb (arg_ok (casts c q)) (q_args q) = true ->
+Lemma leaf_to_json_ok c q : q_items_nopath q = true -> forallb (arg_ok (casts c q)) (q_args q) = true ->
   l2j (lmapL (expected_leaf c q)) = Ok (leaf_json c q).
 Proof.
-  intros H. rewrite leaf_to_json_expected, (args_json_form c q _ H). reflexivity.
+  intros Hn H. rewrite leaf_to_json_expected, (args_json_form c q _ Hn H). reflexivity.
 Qed.
 
 (* where no type conversion applies, the canonical spec spelling itself is written *)
@@ -738,11 +775,13 @@ Qed.
    list items or values of a mapping argument; deeper levels are unrestricted); well-formed
    (distinct keys).  Under a `dtype` class and for (keys_)is_instance: the known type objects
    (q_types_ok).  Item names of items_contain: pairwise distinct (they are keyword arguments),
-   and as for C09 (q_items_ok, q_wf). *)
+   as for C09 (q_items_ok, q_wf), and -- STRENGTHENED after the repair of the serialiser, which now
+   escapes the keyword mapping of items_contain like a mapping argument -- none contains "path"
+   (q_items_nopath; see the comment at its definition and counterexample (b2)). *)
 Definition leaf_in_c11 (c : scls) (q : dsl) : bool :=
   class_ok c q && q_plain2 q && q_types_ok c q && q_wf q && q_items_ok q
   && (casts c q || forallb json_pure (q_args q))
-  && forallb wf_val (q_args q) && q_nodup q.
+  && forallb wf_val (q_args q) && q_nodup q && q_items_nopath q.
 
 Definition tree_in_c11 (t : qtree) : bool :=
   forallb (fun cq => leaf_in_c11 (fst cq) (snd cq)) (qleaves t)
@@ -753,21 +792,26 @@ Lemma leaf_in_c11_inv c q : leaf_in_c11 c q = true ->
   /\ (casts c q || forallb json_pure (q_args q)) = true
   /\ forallb wf_val (q_args q) = true /\ q_nodup q = true.
 Proof.
-  unfold leaf_in_c11. intros H.
+  unfold leaf_in_c11. intros H. apply andb_true_iff in H as [H _].
   apply andb_true_iff in H as [H H8]. apply andb_true_iff in H as [H H7].
   apply andb_true_iff in H as [H H6]. apply andb_true_iff in H as [H H5].
   apply andb_true_iff in H as [H H4]. apply andb_true_iff in H as [H H3]. apply andb_true_iff in H as [H1 H2].
   repeat split; assumption.
 Qed.
 
-(* the fragment of C09 (with its side condition), restricted to JSON arguments, is included *)
+Lemma leaf_in_c11_nopath c q : leaf_in_c11 c q = true -> q_items_nopath q = true.
+Proof. unfold leaf_in_c11. intros H. apply andb_true_iff in H as [_ H]. exact H. Qed.
+
+(* the fragment of C09 (with its side condition), restricted to JSON arguments and to item names
+   without "path", is included *)
 Lemma leaf_c09_in_c11 c q :
   leaf_in_c09 c q = true -> q_items_ok q = true ->
   (casts c q || forallb json_pure (q_args q)) = true -> forallb wf_val (q_args q) = true -> q_nodup q = true ->
+  q_items_nopath q = true ->
   leaf_in_c11 c q = true.
 Proof.
-  intros H9 Hit Hj Hw Hn. destruct (leaf_in_c09_inv c q H9) as [Hc [Hp [Ht Hq]]].
-  unfold leaf_in_c11. rewrite Hc, Ht, Hq, Hit, Hj, Hw, Hn.
+  intros H9 Hit Hj Hw Hn Hnp. destruct (leaf_in_c09_inv c q H9) as [Hc [Hp [Ht Hq]]].
+  unfold leaf_in_c11. rewrite Hc, Ht, Hq, Hit, Hj, Hw, Hn, Hnp.
   unfold q_plain2. unfold q_plain in Hp. rewrite (forallb_impl _ _ _ plain_plain2 Hp). reflexivity.
 Qed.
 
@@ -946,7 +990,8 @@ Lemma cond_to_json_tree n : leaves_c11 n = true -> cond1_to_json T X (cmapL (con
 Proof.
   unfold cond1_to_json. induction n as [c q| |o a IHa b IHb]; intros H.
   - cbn [cond_of cond_map cond_to_json tree_json]. apply leaf_to_json_ok.
-    exact (leaf_args_ok c q (leaves_c11_leaf c q H)).
+    + exact (leaf_in_c11_nopath c q (leaves_c11_leaf c q H)).
+    + exact (leaf_args_ok c q (leaves_c11_leaf c q H)).
   - reflexivity.
   - apply leaves_c11_bin in H as [Ha Hb].
     cbn [cond_of cond_map cond_to_json tree_json]. rewrite (IHa Ha), (IHb Hb). cbn [bind].
@@ -1168,24 +1213,49 @@ Example C11_counterexample_upper_path_len :
       VDict [(VStr "value.equal_to", VDict [(VStr "path.length", VList [])])]).
 Proof. vm_compute. reflexivity. Qed.
 
-(* (b) the keyword mapping of items_contain( **items ) is never escaped: an item named `path`
-   makes the written mapping a path spec (Python: Value.items_contain(path=1) -> TypeError in
-   from_json_like; path=[] -> MalformedConditionLikeSpec) ... *)
-Example C11_counterexample_items_path :
-  roundtrip (L SValue (Q_items_contain [("path", VInt 1)])) = Err TypeError /\
-  roundtrip (L SValue (Q_items_contain [("path", VList [])])) = Err MalformedCond /\
-  cond1_to_json T X (cond_map pyval arg1 ALit (L SValue (Q_items_contain [("path", VInt 1)]))) =
-    Ok (VDict [(VStr "value.items_contain", VDict [(VStr "path", VInt 1)])]) /\
-  q_items_ok (Q_items_contain [("path", VInt 1)]) = false.
+(* (b) the keyword mapping of items_contain( **items ).  Before the repair of the serialiser it was
+   never escaped (Python: Value.items_contain(path=1) -> TypeError in from_json_like; path=[] ->
+   MalformedConditionLikeSpec; an item name containing the escape code was un-escaped by
+   from_spec).  Now it is escaped like a mapping argument as soon as a name contains "path", and
+   these three conditions round-trip (they are outside the fragment, which is sufficient, not
+   necessary: q_items_ok / q_items_nopath are false) ... *)
+Example C11_items_path_repaired :
+  roundtrip (L SValue (Q_items_contain [("path", VInt 1)])) =
+    Ok (VDict [(VStr "value.items_contain", VDict [(VStr "\path", VInt 1)])], true, true,
+        VDict [(VStr "value.items_contain", VDict [(VStr "\path", VInt 1)])]) /\
+  roundtrip (L SValue (Q_items_contain [("path", VList [])])) =
+    Ok (VDict [(VStr "value.items_contain", VDict [(VStr "\path", VList [])])], true, true,
+        VDict [(VStr "value.items_contain", VDict [(VStr "\path", VList [])])]) /\
+  roundtrip (L SValue (Q_items_contain [("\path", VInt 1)])) =
+    Ok (VDict [(VStr "value.items_contain", VDict [(VStr "\\path", VInt 1)])], true, true,
+        VDict [(VStr "value.items_contain", VDict [(VStr "\\path", VInt 1)])]) /\
+  q_items_ok (Q_items_contain [("path", VInt 1)]) = false /\
+  q_items_ok (Q_items_contain [("\path", VInt 1)]) = false /\
+  q_items_nopath (Q_items_contain [("path", VInt 1)]) = false.
 Proof. vm_compute. repeat split. Qed.
 
-(* ... and an item name containing the escape code is un-escaped by from_spec *)
-Example C11_counterexample_items_escape :
-  roundtrip (L SValue (Q_items_contain [("\path", VInt 1)])) =
-  Ok (VDict [(VStr "value.items_contain", VDict [(VStr "\path", VInt 1)])], true, false,
-      VDict [(VStr "value.items_contain", VDict [(VStr "path", VInt 1)])])
-  /\ q_items_ok (Q_items_contain [("\path", VInt 1)]) = false.
-Proof. vm_compute. split; reflexivity. Qed.
+(* (b2) ... but from_spec moves the un-escaped names to the end: with an item name containing
+   "path" BEFORE another item, the rebuilt condition has its items in another order (`==` holds,
+   `c2 = c1` does not) and the data written again is the same mapping only up to key order, as
+   in (e).  q_items_ok (the side condition of C09) holds here: this is why the fragment has
+   q_items_nopath in addition. *)
+Example C11_counterexample_items_path_order :
+  roundtrip (L SValue (Q_items_contain [("path", VInt 1); ("a", VInt 2)])) =
+    Ok (VDict [(VStr "value.items_contain", VDict [(VStr "\path", VInt 1); (VStr "a", VInt 2)])], true, true,
+        VDict [(VStr "value.items_contain", VDict [(VStr "a", VInt 2); (VStr "\path", VInt 1)])]) /\
+  q_items_ok (Q_items_contain [("path", VInt 1); ("a", VInt 2)]) = true /\
+  q_items_nopath (Q_items_contain [("path", VInt 1); ("a", VInt 2)]) = false /\
+  leaf_in_c11 SValue (Q_items_contain [("path", VInt 1); ("a", VInt 2)]) = false.
+Proof. vm_compute. repeat split. Qed.
+
+(* (b3) a single item whose name reads `path` in upper case is not escaped (no "path" in it) and
+   is taken for a path spec by from_spec, as in (a): q_items_ok is still needed next to
+   q_items_nopath *)
+Example C11_counterexample_items_upper_path :
+  roundtrip (L SValue (Q_items_contain [("PATH", VList [])])) = Err MalformedCond /\
+  q_items_nopath (Q_items_contain [("PATH", VList [])]) = true /\
+  q_items_ok (Q_items_contain [("PATH", VList [])]) = false.
+Proof. vm_compute. repeat split. Qed.
 
 (* (c) tuples are written as lists (not JSON-representable arguments) *)
 Example C11_counterexample_tuple :
@@ -1219,6 +1289,10 @@ Proof. vm_compute. reflexivity. Qed.
 (* Coverage.  All 32 constructors of the typed DSL on every class that has them (`covered q` is
    constantly true); trees of depth <= 40 (the fuel of the parser model).
    NOT covered (remaining):
+   - items_contain( **items ) with an item name containing "path" (q_items_nopath, added after the
+     repair of the serialiser: the keyword mapping is then written raw and escaped, and from_spec
+     un-escapes and REORDERS the names: example (b2)).  As for the next item, the statement up to
+     `==` / key order is expected to hold there; not attempted.
    - mapping arguments, mapping items of list arguments and mapping values of mapping arguments
      one of whose keys contains "path" (the serialiser escapes them, from_spec un-escapes and
      REORDERS them).  There `c2 = c1` and `cond1_to_json T X c2 = Ok j` are false (example (e));
@@ -1232,7 +1306,9 @@ Proof. vm_compute. reflexivity. Qed.
      permutation; not attempted.
    - data-path arguments (APath): the model of conditions built by the typed DSL (expected_leaf /
      cond_of) has literal arguments only.
-   Hypotheses added w.r.t. the informal property: q_items_ok (examples (b)), q_nodup (example
+   Hypotheses added w.r.t. the informal property: q_items_ok (as for C09; given q_items_nopath it
+   still excludes a single item named `PATH[.m[.m]]` in upper / mixed case: example (b3)),
+   q_items_nopath (example (b2)), q_nodup (example
    (f)), plain2 (examples (a), (e)), no tuples / non-JSON values (examples (c), (d)),
    wf_val (distinct mapping keys: needed for `v == v`). *)
 
